@@ -317,6 +317,38 @@ class Fn:
         return 'Fn(%s)' % self.d
 
 
+_RECORD = {}
+_SIGS = None
+
+
+def _anchor_sigs():
+    global _SIGS
+    if _SIGS is None:
+        p = os.path.join(os.path.dirname(os.path.abspath(__file__)), 'anchor_sigs.json')
+        try:
+            _SIGS = json.load(open(p))
+        except Exception:
+            _SIGS = {}
+    return _SIGS
+
+
+def save_recorded_anchors():
+    if not _RECORD:
+        return
+    p = os.path.join(os.path.dirname(os.path.abspath(__file__)), 'anchor_sigs.json')
+    try:
+        cur = json.load(open(p))
+    except Exception:
+        cur = {}
+    for k_, v_ in _RECORD.items():
+        if isinstance(v_, list):
+            old_ = cur.get(k_) if isinstance(cur.get(k_), list) else []
+            cur[k_] = old_ + [e for e in v_ if e not in old_]
+        else:
+            cur[k_] = v_
+    json.dump(cur, open(p, 'w'), indent=0, sort_keys=True)
+
+
 class Facts:
     def __init__(self, config='default', repo=None):
         self.dir, self.info = extract.facts_dir(config, repo)
@@ -353,6 +385,7 @@ class Facts:
         for c, floor in extract.FLOORS.items():
             if self.counts.get(c, 0) < floor:
                 raise SystemExit('pv: driver analysed only %d fn bodies of %s (floor %d) - failing closed' % (self.counts.get(c, 0), c, floor))
+        self.renamed = {}
         self._by_qual = {}
         self._by_name = {}
         for fn in self.fns.values():
@@ -395,9 +428,59 @@ class Facts:
             cands = [f for f in cands if f.crate == crate]
         if trait is not None:
             cands = [f for f in cands if (f.trait or '').endswith(trait)] if trait else [f for f in cands if not f.trait]
+        key = '%s|%s|%s' % (q, crate or '', trait if trait is not None else '-')
+        if not cands:
+            # renamed item: the anchor table (rules/anchor_sigs.json, generated from the tree the rules were written against) records
+            # the signature of every anchor; a function of the same crate and owner with exactly that signature and no other
+            # candidate is taken to be the renamed anchor - a rename must not raise an alarm
+            sig = _anchor_sigs().get(key)
+            if sig is not None:
+                alt = [f for f in self.fns.values() if f.crate == sig['crate'] and f.owner == sig['owner'] and f.body is not None
+                       and f.name not in sig.get('siblings', []) and self.signature(f) == sig['sig']]
+                alt = [f for f in alt if f.name not in self._anchor_names()]
+                if len(alt) == 1:
+                    cands = alt
+                    self.renamed[key] = alt[0].qual
+        elif len(cands) == 1 and os.environ.get('PV_RECORD_ANCHORS'):
+            f = cands[0]
+            _RECORD[key] = {'crate': f.crate, 'owner': f.owner, 'name': f.name, 'sig': self.signature(f)}
         if all:
             return cands
         return cands
+
+    def renamed_callee(self, name):
+        """current name(s) of workspace functions that the rule tables know as `name`, when the function of that name (and owner) no
+        longer exists and exactly one function has the signature recorded for it (a renamed callee must not raise an alarm)"""
+        out = []
+        for sig in _anchor_sigs().get('callee:' + name, []) if isinstance(_anchor_sigs().get('callee:' + name), list) else []:
+            if any(f.owner == sig['owner'] and f.crate == sig['crate'] for f in self._by_name.get(name, [])):
+                continue
+            alt = [f for f in self.fns.values() if f.crate == sig['crate'] and f.owner == sig['owner'] and self.signature(f) == sig['sig'] and f.name not in self._anchor_names()]
+            if len(alt) == 1:
+                self.renamed['callee:' + name] = alt[0].qual
+                out.append(alt[0].name)
+        return out[0] if out else None
+
+    def record_callee(self, name, d):
+        if os.environ.get('PV_RECORD_ANCHORS') and d in self.fns:
+            f = self.fns[d]
+            ent = {'crate': f.crate, 'owner': f.owner, 'name': f.name, 'sig': self.signature(f)}
+            lst = _RECORD.setdefault('callee:' + name, [])
+            if ent not in lst:
+                lst.append(ent)
+
+    def signature(self, f):
+        ps = []
+        for p in f.params:
+            for b in pat_binds(p):
+                ps.append(f.types[b['t']] if b.get('t') is not None else '?')
+        r = f.raw.get('ret')
+        return [ps, f.types[r] if isinstance(r, int) and r < len(f.types) else str(r)]
+
+    def _anchor_names(self):
+        if not hasattr(self, '_anames'):
+            self._anames = {v['name'] for v in _anchor_sigs().values() if isinstance(v, dict)} & set(self._by_name)
+        return self._anames
 
     def one(self, q, **kw):
         c = self.find(q, **kw)
